@@ -253,6 +253,10 @@ class Gen:
     def msm_sets(self, r, gnss, max_cells=64):
         pool = self.sig_pool(gnss)
         ng = r.randrange(1, min(len(pool), 8) + 1)
+        if r.random() < 0.2:
+            # many distinct signals, up to the whole table (few satellites then)
+            ng = r.choice([len(pool), min(len(pool), 17), min(len(pool), 16), r.randrange(1, len(pool) + 1)])
+            ng = max(1, min(ng, max_cells))
         ns_max = max(1, min(64, max_cells // ng))
         ns = r.choice([1, ns_max, r.randrange(1, ns_max + 1), r.randrange(1, min(ns_max, 4) + 1)])
         S = r.sample(range(1, 65), ns)
